@@ -74,7 +74,8 @@ def calc_radial_tidal_heating(
     # To keep things consistent with other parts of TidalPy and the references that it is built off of, we are defining
     #    a few extra terms here. Some of their components are redundant and will be divided out shortly. We are choosing
     #    consistency at a (very) slight performance hit.
-    tidal_susceptibility = (3. / 2.) * G * tidal_host_mass**2 * world_radius**5 / semi_major_axis**6
+    # (The powers are taken of floats: an integer radius or semi-major axis would be raised in wrapping 64-bit integer arithmetic.)
+    tidal_susceptibility = (3. / 2.) * G * tidal_host_mass**2 * (1. * world_radius)**5 / (1. * semi_major_axis)**6
 
     radial_tidal_heating = (tidal_susceptibility / world_radius) * \
                            (G * radial_sensitivity_to_shear * np.imag(complex_shear_modulus) / (
